@@ -99,6 +99,10 @@ M2 = [
   [('HRef', '__eq__', 'method')], 'equal-iff-a-reference-to-the-same-path', 'href'),
  ('hwires-outer-wrong-level', 'spydrnet/util/get_hwires.py', '                hcable = HRef.from_parent_and_item(hinst.parent, cable)', '                hcable = HRef.from_parent_and_item(hinst, cable)',
   [('get_hwires', '_get_outer_hwire_from_hpin', 'static')], 'the-wire-attached-outside-the-pin', 'hwires'),
+ ('uniq-two-references-count-as-unique', 'spydrnet/uniquify.py', 'len(instance.reference.references) == 1 or', 'len(instance.reference.references) <= 2 or',
+  [('uniquify', '_is_unique', 'static')], 'true-iff-instantiated-once-or-leaf', 'uniq'),
+ ('flat-leaf-test-ignores-cables', 'spydrnet/ir/definition.py', 'if len(self._children) > 0 or len(self._cables) > 0:', 'if len(self._children) > 0:',
+  [('Definition', 'is_leaf', 'method')], 'true-iff-no-children-and-no-cables', 'flat'),
  ('loop-guard-undeclared-store', 'spydrnet/ir/cable.py', '        for _ in range(wire_count):\n            self.create_wire()', '        for _ in range(wire_count):\n            self.create_wire()\n            self._is_scalar = False',
   [('Cable', 'create_wires', 'method')], 'DEGRADED', 'ir'),
  ('benign-ns-local-rename', 'spydrnet/plugins/namespace_manager/__init__.py', 'parent_namespace', 'policy_of_parent', [('NamespaceManager', 'add', 'method')], None, 'ns'),
